@@ -16,6 +16,7 @@ keeps id / ty / sp and records the rule in `nf`):
   NF7  x = x + e  (and - * / % & | ^ << >>)              -> x += e
   NF8  a named constant array of integers                -> the array literal
   NF9  unsigned x / 2^k, x % 2^k, x * 2^k                -> x >> k, x & (2^k - 1), x << k
+  NF11 a.eq(&b), a.ne(&b)                                -> a == b, a != b
   NF10 let f = match s { A => e1, .. }; if f { X }  (f used once) -> match s { A => if e1 { X }, .. }
 """
 from . import hir as H
@@ -212,6 +213,13 @@ class Normalizer:
         if name == "into" and not n.get("args") and n.get("ty") in INT_BITS and \
                 (n["recv"].get("ty") in INT_BITS or n["recv"].get("ty") == "bool"):
             return self.rewrite({"k": "Cast", "e": n["recv"], "ty": n["ty"], "id": n.get("id"), "sp": n.get("sp"), "nf": "NF3"})
+        if name in ("eq", "ne") and len(n.get("args") or ()) == 1 and (n.get("callee") or "").endswith("cmp::PartialEq::" + name) and n.get("ty") == "bool":
+            # a.eq(&b) -> a == b
+            arg = n["args"][0]
+            while isinstance(arg, dict) and arg.get("k") == "AddrOf":
+                arg = arg["e"]
+            return self._binary({"k": "Binary", "op": "==" if name == "eq" else "!=", "l": n["recv"], "r": arg, "id": n.get("id"),
+                                 "ty": "bool", "sp": n.get("sp"), "nf": "NF11"})
         if name == "is_empty" and not n.get("args"):
             ln = dict(n, name="len", ty="usize", nf="NF5")
             for key in ("callee", "inst"):
